@@ -20,6 +20,12 @@ use crate::un::fnv;
 
 /// Root of the verification tree. `/verif` unless VERIF_ROOT is set (used for background runs from a
 /// snapshot worktree so that they do not share build output or evidence with the live tree).
+/// Where bpaf's source lives: `/repo`, or BPAF_REPO for isolated runs against a scratch copy
+/// (tools/try_mutant_iso.sh); must agree with the path dependency in harness/Cargo.toml.
+pub fn bpaf_repo() -> String {
+    std::env::var("BPAF_REPO").unwrap_or_else(|_| "/repo".to_string())
+}
+
 pub fn verif_root() -> String {
     std::env::var("VERIF_ROOT").unwrap_or_else(|_| "/verif".to_string())
 }
